@@ -54,12 +54,31 @@ func c01(r *engine.Report, p *engine.Program) {
 		return out
 	}
 	kw := writersOf(kcc)
+	want := []string{"(*netceptor.Netceptor).handleRoutingUpdate", "(*netceptor.Netceptor).removeConnection", "(*netceptor.Netceptor).runProtocol"}
+	{
+		// a private helper extracted from a frozen writer is that writer's own code: its writes
+		// are attributed to the call sites in the writer
+		wantSet := map[string]bool{}
+		for _, w := range want {
+			wantSet[w] = true
+		}
+		for fn := range kw {
+			if wantSet[engine.FuncName(fn)] {
+				continue
+			}
+			if owner := privateHelperOf(p, fn, wantSet); owner != "" {
+				if of := p.Func(owner); of != nil {
+					delete(kw, fn)
+					kw[of] = fieldWriteSitesIn(p, of, kcc, false)
+				}
+			}
+		}
+	}
 	var names []string
 	for fn := range kw {
 		names = append(names, engine.FuncName(fn))
 	}
 	sort.Strings(names)
-	want := []string{"(*netceptor.Netceptor).handleRoutingUpdate", "(*netceptor.Netceptor).removeConnection", "(*netceptor.Netceptor).runProtocol"}
 	r.Check("R1-rebuild-requested", "knownConnectionCosts: writers", token.NoPos, setEq(names, want), fmt.Sprintf("writers are exactly %v", want), fmt.Sprintf("writers are %v, frozen table is %v", names, want))
 	sendsOn := func(fn *ssa.Function, ch *types.Var) []ssa.Instruction {
 		var out []ssa.Instruction
